@@ -70,8 +70,10 @@ deriving DecidableEq, Repr
 
 def Facts.expected : Facts := ⟨true, true, true, true, true, true, true, true, true⟩
 
-/-- configurations for which the property theorems are proved -/
-def Proved (c : Cfg) : Prop := c.freeGuard = .bothZero ∧ c.countAt = .beforeBlock ∧ c.grpSort = .asc
+/-- configurations for which the property theorems are proved: today's free guard and count placement, and a group
+comparator that is a strict total order on shard indices (ascending as today, or descending) — all four multi-key
+entry points use the one comparator (`Facts.grpMultiShape`), which is all the deadlock argument needs -/
+def Proved (c : Cfg) : Prop := c.freeGuard = .bothZero ∧ c.countAt = .beforeBlock ∧ (c.grpSort = .asc ∨ c.grpSort = .desc)
 instance : DecidablePred Proved := fun c => by unfold Proved; exact inferInstance
 
 /-- `wrapLocker`; `regR`/`regW` are ghost: the tids whose registration is counted in `rc`/`wc`.
@@ -140,6 +142,18 @@ def groups (c : Cfg) (n : Nat) (sh : Key → Nat) (keys : List Key) : List (List
   match c.grpSort with
   | .desc => (groupsAsc n sh keys).reverse
   | _ => groupsAsc n sh keys
+
+/-- the shard indices in the order the comparator puts them -/
+def shardOrder (c : Cfg) (n : Nat) : List Nat :=
+  match c.grpSort with
+  | .desc => (List.range n).reverse
+  | _ => List.range n
+
+/-- position of shard `i` in `shardOrder` -/
+def srank (c : Cfg) (n : Nat) (i : Nat) : Nat :=
+  match c.grpSort with
+  | .desc => n - 1 - i
+  | _ => i
 
 /-- the order in which one call touches its keys -/
 def acqOrder (c : Cfg) (n : Nat) (sh : Key → Nat) (keys : List Key) : List Key := (groups c n sh keys).flatten
